@@ -408,7 +408,8 @@ func (it Item) Less(bItem btree.Item) bool {
 }
 
 func (it *Item) updateNext() error {
-	newNext, err := it.cron.Next(time.Unix(it.next, 0))
+	// Schedules are in UTC: the cron library evaluates the fields in the location of its argument.
+	newNext, err := it.cron.Next(time.Unix(it.next, 0).UTC())
 	if err != nil {
 		return err
 	}
